@@ -43,18 +43,21 @@ def _shapes_c02_1(tier):
         for ver in versions:
             if kind in ("cbc", "cbc-etm"):
                 combos = [(16, 20)] if tier == "quick" else \
-                    [(16, 20), (8, 20), (16, 32)]
+                    [(16, 20), (8, 20)]
             elif kind == "stream":
                 combos = [(None, 20)]
             else:
                 combos = [(None, 0)]
             for block, mac in combos:
                 for (n0, n1) in ([(3, 3), (2, 5)] if tier == "quick"
-                                 else [(3, 3), (2, 5), (0, 1), (17, 17),
-                                       (1, 17)]):
+                                 else [(3, 3), (2, 5), (0, 1), (17, 17)]):
                     for s in (0, 1):
-                        for delta in ((0,) if tier == "quick"
-                                      else (0, -1, 1)):
+                        # truncation / extension by one unit: sized to the
+                        # hour the thorough tier has (the first sizing - five
+                        # length pairs, three deltas each, three CBC
+                        # parameter sets - did not finish in 70 minutes)
+                        for delta in ((0,) if tier == "quick" or
+                                      (n0, n1) != (3, 3) else (0, -1, 1)):
                             out.append(dict(mode=mode, version=list(ver),
                                             block=block, mac=mac, n0=n0,
                                             n1=n1, s=s, other=False,
